@@ -52,13 +52,14 @@ CHECKS = {
   "NOT decided by this check: the store side (Put then Get returns exactly the data; repair of a damaged output) — put/copyFile/putIndexEntry are not yet under contract, see C12/C11 in not_applicable",
   "contract-based deductive verification: safety and functional postconditions over go/ssa with ghost bindings of the read buffer; z3/cvc5"),
  "C08": ("5 C08",
-  "Proved by contract: Diff returns nil exactly when the two inputs are byte-identical and otherwise a non-empty result (for all inputs), and lines() indexes its split result safely. "
-  "Everything else in the property — header, hunks in order and non-overlapping, start lines and counts matching bodies, the diff applied forwards and backwards reproducing the other text, the missing-final-newline convention, "
-  "and the contract of the anchor computation tgs (sentinels, strictly increasing, unique matching lines) — is checked by a BOUNDED stand-in only: exhaustive over all pairs of texts of up to 4 (quick) / 5 (thorough) lines "
-  "from {a, b, c, '+x', a line that looks like a hunk header}, each with and without final newline (564,001 pairs at the quick bound).",
-  "assumed: bytes.Equal, strings.SplitAfter, fmt/bytes.Buffer externs (a written buffer yields a non-empty slice). Index safety of Diff's hunk loops relative to a tgs contract and the hunk arithmetic invariants (DESIGN section 5 C08) are NOT discharged as obligations in this round: the Diff contract carries `nosafety`, listed in the evidence warnings; "
-  "the bounded stand-in is not a proof and is not counted in obligations/discharged",
-  "contract-based deductive verification for the nil-iff-equal clause (z3/cvc5); labelled bounded exhaustive stand-in (independent patch applier + tgs contract checker on the real functions) for hunk correctness"),
+  "Proved by contract, for all pairs of texts: Diff returns nil exactly when the two inputs are byte-identical and otherwise a non-empty result; every index and slice expression of Diff's nine loops is in bounds (relative to the contract of the anchor computation tgs: sentinels, pairs inside the texts, interior pairs name equal lines unique in both texts, pairs increasing); "
+  "the position bookkeeping is exact (chunk start + lines counted == lines consumed, on both sides, at every loop head); every hunk header is printed with the 1-based start of its body (0-based when that side is empty) and the counts accumulated with the body; hunks are emitted in increasing, non-overlapping order on both sides "
+  "(the uniqueness argument that a later anchor can never lie inside an already consumed run is part of the loop invariant). "
+  "Checked by BOUNDED stand-ins only: that the body lines themselves are the right lines (the diff applied forwards and backwards reproduces the other text), the missing-final-newline convention of lines(), and tgs's contract itself — exhaustive over all pairs of texts of up to 4 (quick) / 5 (thorough) lines "
+  "from {a, b, c, '+x', a line that looks like a hunk header}, with and without final newline, plus a structured sweep (prefix 0..4, gap 0..9, suffix 0..4, 4x4 kinds of change, 4 newline variants) around the hunk-merging threshold.",
+  "assumed: tgs's contract (trusted for the proof, evaluated on the real function by the stand-in on every run; tgs's own body incl. its sort.Search closure is not verified), bytes.Equal, strings.SplitAfter, fmt/bytes.Buffer externs; lines() is verified for memory safety only. "
+  "The bounded stand-ins are not proofs and are not counted in obligations/discharged",
+  "contract-based deductive verification (9 loop invariants incl. a quantified alignment invariant over the remaining anchors, ghost hunk ends, call-site obligations on the header print; z3/cvc5) plus labelled bounded stand-ins (independent patch applier + tgs contract checker on the real functions)"),
  "C09": ("5 C09",
   "Rely-guarantee proof of the runner bookkeeping with ghost counters per Work (sleeping S, signalled K, exited X, in-f F, runners spawned): under arbitrary interference allowed by the rely clause, every step of Add, Do and runner "
   "(stores to waiting/todo, Signal, Broadcast, the two phases of Cond.Wait, Lock/Unlock with their ghost transitions) re-establishes the invariant: waiting == S+K+X while the mutex is free, S+K+X+F never exceeds the runners spawned (<= n), "
